@@ -88,7 +88,7 @@ def helper_cases(ctx, n):
         g = rng.choice(getters)
         v = rng.choice([None, 0, 1, 2, 3, 4])
         py = getattr(CipherSuite, g)(val, (3, v) if v is not None else None)
-        lits.append('list_eqb (get_suites %s %s [%s]) %s' % (sl, 'st_maxV %s' % sl if v is None else str(v), base[g], zl(py)))
+        lits.append('list_eqb (get_suites %s %s [%s]) %s' % (sl, '(st_maxV %s)' % sl if v is None else str(v), base[g], zl(py)))
         meta.append(('getter', g, v))
         cert = rng.choice(U.SERVER_CERTS + U.CLIENT_CERTS + [None, None])
         ver = rng.choice([1, 2, 3, 3, 4, 4])
@@ -150,12 +150,11 @@ def run(ctx):
                bool(c['settings']['psks']))
         ctx.count('live-pair-vs-property', 1, [key], sample={'case': case, 'outcome': code} if len(live) % 60 == 1 else None)
         for k, what in r['bad']:
-            found = True
             seen_keys[k] = seen_keys.get(k, 0) + 1
             if seen_keys[k] > 1:
                 continue                      # one replay file per failure class
-            ctx.violation(k, what, {'case': case, 'seed': r['seed'], 'observed': obs,
-                                    'how': './check C03 --replay <this file>  (runs the pair on /repo and re-evaluates the property)'})
+            found = ctx.violation(k, what, {'case': case, 'seed': r['seed'], 'observed': obs,
+                                    'how': './check C03 --replay <this file>  (runs the pair on /repo and re-evaluates the property)'}) or found
     ctx.cov['property_failures_by_key'] = seen_keys
     ctx.cov['completed_both'] = len([r for r in live if U.outcome_code(r['obs']) == 0])
     ctx.log('property oracle on %d live pairs (%d completed on both ends)' % (len(live), ctx.cov['completed_both']))
@@ -172,7 +171,7 @@ def run(ctx):
         for i in bad[:5]:
             r = live[i]
             ctx.log('model/impl disagreement: %s -> impl %s' % (json.dumps(r['case'])[:300], U.obs_tuple(r['obs'])))
-            if not r['bad']:
+            if True:
                 tie_broken = 'model disagrees with implementation on case %s (impl %s)' % (
                     json.dumps(r['case']), U.obs_tuple(r['obs']))
                 ctx.cov.setdefault('disagreements', []).append({'case': r['case'], 'seed': r['seed'], 'impl': U.obs_tuple(r['obs'])})
